@@ -197,7 +197,11 @@ func (s *State) liveKeys(b string, now int64, pred func(k string) bool) (ks, vs 
 // ValueOf returns the value an op stores (with padding applied).
 func ValueOf(op prog.Op) string {
 	if op.Big > 0 && len(op.Val) < op.Big {
-		return op.Val + strings.Repeat("x", op.Big-len(op.Val))
+		pad := "x"
+		if op.Zero {
+			pad = "\x00"
+		}
+		return op.Val + strings.Repeat(pad, op.Big-len(op.Val))
 	}
 	return op.Val
 }
@@ -205,6 +209,8 @@ func ValueOf(op prog.Op) string {
 // Eval returns the acceptable outcomes of op on state s at simulated second now.
 func (s *State) Eval(op prog.Op, now int64) Outcome {
 	switch op.K {
+	case "adv":
+		return val("ok", nil) // the executor moved the clock; nothing else happens
 	// ------------------------------------------------------------ KV
 	case "put", "putts":
 		if op.Key == "" {
